@@ -27,15 +27,16 @@ Perms(n) == {f \in [1..n -> 0..(n - 1)] : \A i, j \in 1..n : f[i] = f[j] => i = 
 Ident(n) == [i \in 1..n |-> i - 1]
 
 NeedsKeep == {"divide", "filter", "distribute"}
-NeedsSize == {"rebatch", "divide", "filter", "distribute", "batchover", "pair"}
-AnyArrival == {"sort", "rebatch", "filterempty", "divide", "filter", "distribute", "pair", "workers", "complete"}
+NeedsSize == {"rebatch", "divide", "filter", "distribute", "batchover", "pair", "fragments", "merge"}
+AnyArrival == {"fragments", "merge", "sort", "rebatch", "filterempty", "divide", "filter", "distribute", "pair", "workers", "complete"}
 TwoStreams == {"concat", "pair"}
 
 Init ==
   /\ phase = "case"
   /\ out = <<>>
   /\ \E op \in Ops, s \in SizeVecs :
-       \E arr \in (IF op \in AnyArrival THEN Perms(Len(s)) ELSE {Ident(Len(s))}),
+       /\ (op = "merge" => \A k \in 1..Len(s) : s[k] > 0)
+       /\ \E arr \in (IF op \in AnyArrival THEN Perms(Len(s)) ELSE {Ident(Len(s))}),
           sz \in (IF op \in NeedsSize THEN BSizes ELSE {0}),
           keep \in (IF op \in NeedsKeep THEN SUBSET (1..Tot(s)) ELSE {{}}),
           s2 \in (IF op = "concat" THEN SizeVecs
@@ -43,6 +44,9 @@ Init ==
           s3 \in (IF op = "concat" THEN {<<>>, <<0>>, <<1, 0>>} ELSE {<<>>}) :
          c = [op |-> op, sizes |-> s, arrival |-> arr, size |-> sz, keep |-> keep,
               sizes2 |-> s2, sizes3 |-> s3]
+
+(* record r has 3 + 2r bases: lengths 5, 7, 9, ... straddle minsize = 6 and one / several windows of 5 *)
+FragLens == [r \in 1..64 |-> 3 + 2 * r]
 
 Compute ==
   LET inp == MkInp(c.sizes) IN
@@ -52,6 +56,8 @@ Compute ==
     [] c.op = "filterempty" -> FilterEmptyOut(inp)
     [] c.op = "filter"      -> FilterOut(inp, c.keep, c.size)
     [] c.op = "batchover"   -> BatchOverOut(Flat(inp), c.size)
+    [] c.op = "fragments"   -> FragmentsOut(inp, FragLens, 6, 5, 2, c.size)
+    [] c.op = "merge"       -> MergeOut(inp, c.arrival, c.size)
     [] c.op = "complete"    -> CompleteOut(inp)
     [] c.op = "concat"      -> ConcatOut(<<inp, MkInpFrom(c.sizes2, 100), MkInpFrom(c.sizes3, 200)>>)
     [] c.op = "pair"        -> PairOut(inp, MkInpFrom(c.sizes2, 100), c.size)
@@ -78,6 +84,10 @@ ContractHolds == phase = "done" => \A s \in Streams : OrderContract(s)
 NothingLostOrAdded == phase = "done" =>
   LET inp == MkInp(c.sizes) IN
   CASE c.op \in {"sort", "workers", "rebatch", "filterempty", "batchover", "complete"} -> Records(out) = Flat(inp)
+    [] c.op = "fragments" -> \A r \in {Flat(inp)[i] : i \in 1..Len(Flat(inp))} :
+                                 FragsCover(SelectSeq(Records(out), LAMBDA f : f[1] = r), FragLens[r])
+    [] c.op = "merge" -> LET RECURSIVE Sum(_) Sum(q) == IF q = <<>> THEN 0 ELSE Head(q) + Sum(Tail(q))
+                         IN Sum(Records(out)) = Len(Flat(inp))
     [] c.op = "filter" -> Records(out) = SelectSeq(Flat(inp), LAMBDA r : r \in c.keep)
     [] c.op \in {"divide", "distribute"} ->
            /\ SameBag(Records(out[1]) \o Records(out[2]), Flat(inp))
@@ -87,7 +97,7 @@ NothingLostOrAdded == phase = "done" =>
                         /\ \A i \in 1..Len(out) : Len(out[i].mates) = Len(out[i].items)
                              /\ \A j \in 1..Len(out[i].items) : out[i].mates[j] = out[i].items[j] + 100
 Cuts == phase = "done" =>
-  CASE c.op \in {"rebatch", "filter", "batchover", "pair"} -> WellCut(out, c.size)
+  CASE c.op \in {"rebatch", "filter", "batchover", "pair", "fragments", "merge"} -> WellCut(out, c.size)
     [] c.op \in {"divide", "distribute"} -> WellCut(out[1], c.size) /\ WellCut(out[2], c.size)
     [] OTHER -> TRUE
 
